@@ -253,6 +253,21 @@ def M_str_starts_with_str(it, ctx, args, st):
     yield st, z3.And(z3.UGE(s.len, n), *[(s.bytes[i] == py[i]) if i < len(s.bytes) else z3.BoolVal(False) for i in range(n)])
 
 
+def M_str_starts_ends_with_char(end):
+    def f(it, ctx, args, st):
+        s = sval(st, args[0])
+        ch = concrete(args[1])
+        if ch is None or ch >= 128:
+            raise Unsupported('starts_with / ends_with with a symbolic or non-ASCII char')
+        if not s.bytes:
+            yield st, z3.BoolVal(False)
+        elif end:
+            yield st, z3.And(s.len != 0, bstr_byte(s, s.len - 1) == ch)
+        else:
+            yield st, z3.And(s.len != 0, s.bytes[0] == ch)
+    return f
+
+
 def M_str_ends_with_str(it, ctx, args, st):
     s, suf = sval(st, args[0]), sval(st, args[1])
     py = bstr_py(suf)
@@ -652,6 +667,16 @@ def ghost_int_text(it, st, v, bits, signed):
     n = it.counter = getattr(it, 'counter', 0) + 1
     r = BStr(tuple(z3.BitVec(f'itxt{n}_{i}', 8) for i in range(K)), z3.BitVec(f'itxt{n}_len', 64))
     st.pc.append(z3.And(z3.UGE(r.len, 1), z3.ULE(r.len, K), *[z3.ULT(b, 128) for b in r.bytes]))
+    # sound facts about the canonical decimal text (not a full definition): a leading '-' exactly for negative values, digits
+    # everywhere else, a leading digit 0 exactly for the value 0 (whose text is the single character "0")
+    digit = lambda b: z3.And(z3.UGE(b, 48), z3.ULE(b, 57))
+    neg = (v < 0) if signed else z3.BoolVal(False)
+    b0, b1 = r.bytes[0], r.bytes[1]
+    first = z3.If(neg, b1, b0)
+    facts = [(b0 == 45) == neg, z3.Implies(neg, z3.UGE(r.len, 2)), digit(first), (first == 48) == (v == 0), z3.Implies(v == 0, r.len == 1)]
+    for i, b in enumerate(r.bytes[1:], 1):
+        facts.append(z3.Implies(z3.ULT(bv(i), r.len), digit(b)))
+    st.pc.append(z3.And(*facts))
     st.aux['int_texts'] = st.aux.get('int_texts', ()) + ((r, v, bits, signed),)
     return r
 
@@ -2563,6 +2588,7 @@ MODELS = [
     (r'<\(?dyn ' + P + r'error::Error[^>]*\)?>::is::<.*>', M_dyn_error_is),
     (P + r'slice::<impl \[.*\]>::first', M_slice_first_last(False)), (P + r'slice::<impl \[.*\]>::last', M_slice_first_last(True)),
     (P + r'str::<impl str>::find::<(?:&str|char)>', M_str_find(False)), (P + r'str::<impl str>::rfind::<(?:&str|char)>', M_str_find(True)),
+    (P + r'str::<impl str>::starts_with::<char>', M_str_starts_ends_with_char(False)), (P + r'str::<impl str>::ends_with::<char>', M_str_starts_ends_with_char(True)),
     (P + r'str::<impl str>::starts_with::<&str>', M_str_starts_with_str), (P + r'str::<impl str>::ends_with::<&str>', M_str_ends_with_str),
     (P + r'slice::<impl \[u8\]>::starts_with', M_str_starts_with_str), (P + r'slice::<impl \[u8\]>::ends_with', M_str_ends_with_str),
     (ITER + r'peekable', M_iter_peekable), (P + r'iter::Peekable::<.*>::peek', M_peekable_peek, is_peekable),
